@@ -49,7 +49,9 @@ pub(super) fn build_type_lookup(
 				.collect();
 			let struct_decl = syn::ItemStruct {
 				attrs: Default::default(),
-				vis: syn::Visibility::Inherited,
+				// It appears in the `TypeLookup` associated type of the type we derive on, which
+				// may be `pub` (it can't be named from outside of our `const _` block anyway)
+				vis: syn::Visibility::Public(Default::default()),
 				struct_token: syn::token::Struct::default(),
 				ident: type_lookup_ident.clone(),
 				generics: syn::Generics {
